@@ -7,7 +7,7 @@ Tie: channels `togo` and `togohist` — the type descriptors are read from the l
 for every op line, real (togo r) / (_method obj M: r) results are dumped as canonical trees with
 pointer-sharing classes and compared with the model, with the spec, and with the dump of the
 generating Go value."""
-import json, os, time
+import json, os, re, time
 import vcommon as V
 
 META = dict(
@@ -17,6 +17,9 @@ META = dict(
     design_ref="DESIGN.md §7 C10, §14.4",
 )
 
+
+_TIME = re.compile(r"t:\d+")
+TIME_KEY = "togo echo weather E H1:2:weather k116.105.109.101 t1600000000 k115.105.122.101 i12 X -"
 
 def strip_world(op):
     """known-finding key: the op line without the (long, regenerated) type-descriptor block"""
@@ -102,12 +105,22 @@ def run(rep):
             for k, v in st.items():
                 stats[k] = stats.get(k, 0) + v
         fixed = []
-        lenient = unspecified = 0
+        lenient = unspecified = time_class = 0
         for op, impl, model, spec in rows:
             ok, nl, nu = spec_accepts(impl, spec)
             lenient += nl
             unspecified += nu
             if ok and spec != "-":
+                spec = impl
+            elif spec != "-" and impl == model and _TIME.sub("nil", spec) == impl and _TIME.search(spec):
+                # The known finding "a time.Time does not come back from Go" is identified by its CALL SITE
+                # (fillHashHelper has no time.Time arm; the repo's Test018 pins time:nil): an op whose only
+                # difference to the spec is a time value that came back as nil - wherever the time sat
+                # (a time-typed field, an interface{} field after an hset, a nested record) - is that finding,
+                # not a new one. Met in the thorough tier: a history that hsets a time into an interface{}
+                # field and then sends the record through a Go method. Anything else that differs is reported.
+                time_class += 1
+                rep.violation("failing-input", {}, key=TIME_KEY)
                 spec = impl
             fixed.append((op, impl, model, spec))
         def nontrivial(op, impl):
@@ -117,6 +130,7 @@ def run(rep):
         ch = rep.coverage["channels"][chan]
         ch["lenient_spec_answers"] = lenient
         ch["unspecified_step_answers"] = unspecified
+        ch["time_does_not_come_back_ops (known finding, by call site)"] = time_class
         ch["converted_ok"] = sum(1 for r in fixed if r[1].startswith("&") or r[1].startswith("rec:"))
         ch["errors_expected_and_reported"] = sum(1 for r in fixed if r[1].split(";")[-1] == "err" and r[3].split(";")[-1] == "err")
         ch["nondeterministic_answers"] = sum(1 for r in fixed if r[1].startswith("nondet("))
